@@ -391,6 +391,39 @@ def c17(ctx):
     rewritten_in_place(ctx)
 
 
+def rewritten_question(gv, gh, gm, front, p, ln, hs, want, k, contents):
+    bad = None
+    if front == 'get_file_metadata':
+        g = gv.get_file_metadata(p, hs)
+        try:
+            got = list(g)[-1]
+        finally:
+            g.close()
+        if any(got.get(h) != want[h] for h in hs) or got.get('__size__') != ln:
+            bad = got
+    elif front == 'verify_path':
+        ent = gm.ManifestEntryDATA('f', ln, dict(want))
+        res = gv.verify_path(p, ent)
+        if res[0] is not True:
+            bad = res
+        # ... and an entry with the digests of the PREVIOUS content must not verify
+        if k and not bad:
+            old = dict([(h, ref_digest(MANIFEST_TO_LIB.get(h, h.lower()), contents[k - 1])) for h in hs])
+            res2 = gv.verify_path(p, gm.ManifestEntryDATA('f', ln, old))
+            if res2[0] is not False:
+                bad = ['stale entry accepted', res2]
+    elif front == 'update_entry_for_path':
+        ent = gm.ManifestEntryDATA('f', ln, dict.fromkeys(hs, '00'))
+        gv.update_entry_for_path(p, ent, hashes=hs)
+        if any(ent.checksums.get(h) != want[h] for h in hs) or ent.size != ln:
+            bad = [ent.size, ent.checksums]
+    else:
+        got = gh.hash_path(p, [MANIFEST_TO_LIB.get(h, h.lower()) for h in hs] + ['__size__'])
+        if any(got.get(MANIFEST_TO_LIB.get(h, h.lower())) != want[h] for h in hs) or got.get('__size__') != ln:
+            bad = got
+    return bad
+
+
 def rewritten_in_place(ctx):
     """the digest is that of the content the file has NOW: one process asks about one file several times while the file is rewritten in
     place between the questions - same inode, same length, the modification time put back (rsync -t, cp -p, two writes within one clock
@@ -417,34 +450,11 @@ def rewritten_in_place(ctx):
                 front = r.choice(['get_file_metadata', 'verify_path', 'update_entry_for_path', 'hash_path'])
                 st['questions'] += 1
                 bad = None
-                if front == 'get_file_metadata':
-                    g = gv.get_file_metadata(p, hs)
-                    try:
-                        got = list(g)[-1]
-                    finally:
-                        g.close()
-                    if any(got.get(h) != want[h] for h in hs) or got.get('__size__') != ln:
-                        bad = got
-                elif front == 'verify_path':
-                    ent = gm.ManifestEntryDATA('f', ln, dict(want))
-                    res = gv.verify_path(p, ent)
-                    if res[0] is not True:
-                        bad = res
-                    # ... and an entry with the digests of the PREVIOUS content must not verify
-                    if k and not bad:
-                        old = dict([(h, ref_digest(MANIFEST_TO_LIB.get(h, h.lower()), contents[k - 1])) for h in hs])
-                        res2 = gv.verify_path(p, gm.ManifestEntryDATA('f', ln, old))
-                        if res2[0] is not False:
-                            bad = ['stale entry accepted', res2]
-                elif front == 'update_entry_for_path':
-                    ent = gm.ManifestEntryDATA('f', ln, dict.fromkeys(hs, '00'))
-                    gv.update_entry_for_path(p, ent, hashes=hs)
-                    if any(ent.checksums.get(h) != want[h] for h in hs) or ent.size != ln:
-                        bad = [ent.size, ent.checksums]
-                else:
-                    got = gh.hash_path(p, [MANIFEST_TO_LIB.get(h, h.lower()) for h in hs] + ['__size__'])
-                    if any(got.get(MANIFEST_TO_LIB.get(h, h.lower())) != want[h] for h in hs) or got.get('__size__') != ln:
-                        bad = got
+                try:
+                    bad = rewritten_question(gv, gh, gm, front, p, ln, hs, want, k, contents)
+                except Exception as e:
+                    # an exception for a regular, readable file is no answer either
+                    bad = ['raised', repr(e)[:160]]
                 if bad is not None:
                     ctx.violation('spec', f'{front} on a file rewritten in place (content no. {k + 1}, {ln} bytes, same inode and modification time) does not report the digests of the present content: {str(bad)[:200]}',
                                   {'front_end': front, 'length': ln, 'hashes': hs, 'contents': [c[:1].decode() + ' x %d' % ln for c in contents[:k + 1]]})
